@@ -160,6 +160,9 @@ fn sql_ty(t: Ty) -> &'static str {
         Ty::Bool => "BOOLEAN",
         Ty::Text => "TEXT",
         Ty::Double => "DOUBLE",
+        Ty::UInt => "UINT",
+        Ty::BigUInt => "BIGUINT",
+        Ty::Float => "FLOAT",
     }
 }
 
@@ -292,8 +295,14 @@ fn expr_cols(e: &E, out: &mut Vec<usize>) {
     match e {
         E::Lit(_) => {}
         E::Col(i) => out.push(*i),
+        E::Coalesce(xs) => {
+            for x in xs {
+                expr_cols(x, out)
+            }
+        }
         E::Not(a) | E::Neg(a) | E::Pos(a) | E::IsNull(_, a) | E::StrFn(_, a) => expr_cols(a, out),
-        E::And(a, b) | E::Or(a, b) | E::Cmp(_, a, b) | E::Arith(_, a, b) | E::Like(_, a, b) | E::Concat(a, b) => {
+        E::And(a, b) | E::Or(a, b) | E::Cmp(_, a, b) | E::Arith(_, a, b) | E::Like(_, a, b) | E::Concat(a, b)
+        | E::NullIf(a, b) => {
             expr_cols(a, out);
             expr_cols(b, out)
         }
@@ -1332,7 +1341,7 @@ fn to_vexpr(e: &E) -> vp::VExpr {
         E::Between(n, a, lo, hi) => vp::VExpr::Between(*n, b(a), b(lo), b(hi)),
         E::InList(n, a, xs) => vp::VExpr::InList(*n, b(a), xs.iter().map(to_vexpr).collect()),
         // CASE and the string functions are not part of the rule facade; the plan generators never produce them
-        E::Case(..) | E::StrFn(..) | E::Concat(..) => vp::VExpr::Lit(vp::VLit::Null),
+        E::Case(..) | E::StrFn(..) | E::Concat(..) | E::NullIf(..) | E::Coalesce(..) => vp::VExpr::Lit(vp::VLit::Null),
     }
 }
 
@@ -1706,7 +1715,7 @@ impl<'a> RG<'a> {
             Ty::Bool => E::Lit(Val::Bool(self.rng.chance(1, 2))),
             Ty::Text => E::Lit(Val::Text(self.rng.pick(&TEXTS).as_bytes().to_vec())),
             // (the generators of this engine build no DOUBLE columns)
-            Ty::Double => E::Lit(Val::Null),
+            Ty::Double | Ty::UInt | Ty::BigUInt | Ty::Float => E::Lit(Val::Null),
         }
     }
 
@@ -1876,6 +1885,9 @@ fn gen_rule_case_once(rng: &mut Rng) -> Option<Case> {
                         Ty::Bool => 'O',
                         Ty::Text => 'S',
                         Ty::Double => 'D',
+                        Ty::UInt => 'U',
+                        Ty::BigUInt => 'W',
+                        Ty::Float => 'F',
                     };
                     if *nn { ch.to_ascii_lowercase() } else { ch }
                 })
@@ -1899,7 +1911,7 @@ fn gen_rule_case_once(rng: &mut Rng) -> Option<Case> {
                             Ty::BigInt => vp::VTy::BigInt,
                             Ty::Bool => vp::VTy::Bool,
                             // (no DOUBLE columns in rule cases)
-                            Ty::Text | Ty::Double => vp::VTy::Text,
+                            Ty::Text | Ty::Double | Ty::UInt | Ty::BigUInt | Ty::Float => vp::VTy::Text,
                         },
                         *nn,
                     )
@@ -2052,7 +2064,7 @@ impl<'a> G<'a> {
             }
             Ty::Bool => Val::Bool(self.rng.chance(1, 2)),
             Ty::Text => Val::Text(self.rng.pick(&TEXTS).as_bytes().to_vec()),
-            Ty::Double => Val::Null,
+            Ty::Double | Ty::UInt | Ty::BigUInt | Ty::Float => Val::Null,
         }
     }
 
